@@ -495,6 +495,8 @@ pub fn obs_fields(gs: &GameState, full: bool) -> String {
         if cp0 { 1 } else { 0 }
     )
     .unwrap();
+    // digest of the move-generation answers alone (C18's fast concurrent phase recomputes just these)
+    write!(s, ",\"ldg\":\"{}\"", light_digest_of(&off, &norep, term, hm, cp1, cp0)).unwrap();
     stage("trapped_animal_for_action");
     s.push_str(",\"pv\":[");
     for (k, a) in norep.iter().enumerate() {
@@ -664,8 +666,15 @@ impl Trace {
 
     /// C18: thread `tid` observed, concurrently with other threads observing OTHER states, the state
     /// that the event on line `line` of this trace observed sequentially
-    pub fn pdig(&mut self, tid: usize, line: usize, dg: &str, pop: usize) {
-        self.emit(format!("{{\"ev\":\"pdig\",\"tid\":{},\"line\":{},\"pop\":{},\"dg\":\"{}\"}}", tid, line, pop, dg));
+    pub fn pdig(&mut self, tid: usize, line: usize, dg: &str, pop: usize, light: bool) {
+        self.emit(format!(
+            "{{\"ev\":\"pdig\",\"tid\":{},\"line\":{},\"pop\":{},\"light\":{},\"dg\":\"{}\"}}",
+            tid,
+            line,
+            pop,
+            if light { 1 } else { 0 },
+            dg
+        ));
     }
 
     /// C18: thread `tid` observed the shared state itself
@@ -714,6 +723,21 @@ pub fn panic_line(what: &str) -> String {
         "[\"C19\"]"
     };
     format!("{{\"ev\":\"panic\",\"call\":{},\"props\":{}}}", json_str(what), props)
+}
+
+fn light_digest_of(off: &[Action], norep: &[Action], term: u8, hm: u8, cp1: bool, cp0: bool) -> String {
+    let mut h = DefaultHasher::new();
+    format!("{}|{}|{}|{}|{}|{}", json_actions(off), json_actions(norep), term, hm, cp1, cp0).hash(&mut h);
+    format!("{:016x}", h.finish())
+}
+
+/// the move-generation answers of a state only: both action lists, result, has_move, can_pass x2
+pub fn light_digest(gs: &GameState) -> String {
+    let off = gs.valid_actions();
+    let norep = gs.valid_actions_no_rep();
+    let term = term_num(gs.is_terminal());
+    let hm = term_num(gs.has_move(gs.piece_board()));
+    light_digest_of(&off, &norep, term, hm, gs.can_pass(true), gs.can_pass(false))
 }
 
 /// digest of an observation (all projected fields and query results as one string)
